@@ -1,3 +1,4 @@
 pub mod choices;
 pub mod grammar;
 pub mod inputs;
+pub mod lexspec;
